@@ -9,6 +9,10 @@ CHECKS = {
    technique="TLA+ spec Transform.tla model-checked by TLC (all ingester scripts x call words); TLC-generated cases replayed on the real Transform via a scripted Extension; traces of real read loops over all 7 formats validated by TLC against Trace_Transform.tla",
    text="TLC exhaustively checks shape, stickiness and the RawRecord gate of the latch model for every ingester script (<=3/4 results) and every Read/RawRecord word (<=6/8 calls); every such behaviour is replayed step by step on the real omniparser.Transform (caller-supplied handler half of the quantifier) and every call of randomized read loops over the seven built-in formats on intact and damaged inputs is validated against the same actions. Bounded exhaustive for the latch, sampled for inputs.",
    note="Trusted: TLC, the 60-line scripted ingester, error identity = (class, text) for format traces. Inputs of the built-in formats are sampled (samples + mutations), not enumerated."),
+ "C05": dict(cat="model_checking", design="5/C05",
+   technique="TLA+ spec Hierarchy.tla (stack machine Impl + recursive-descent Ref) model-checked by TLC over all small hierarchies x unit sequences; TLC-emitted cases replayed on flatfile.HierarchyReader, csv2, fixedlength2 and edi; recorded runs on random larger hierarchies validated by TLC (Trace_Hierarchy.tla)",
+   text="TLC checks for every well-formed hierarchy with <=2 (quick) / <=3 (thorough) declarations and every unit sequence of <=3/4 units over declared and undeclared names that the stack machine transcribed from hierarchyReader.go/edi reader.go delivers exactly the instances of the documented greedy recursive-descent matcher, ends with the same terminal class, never consumes a unit twice, never drops one and never reaches a panic guard. Every such case (51,840 quick; ~400k thorough, N=3 sampled 1/25) is replayed on four real implementations with terminated/unterminated/blank-line/non-UTF-8 input variants; random hierarchies up to 8 declarations and 40 units are checked by TLC evaluating the reference matcher on the recorded case.",
+   note="Trusted: TLC; the concretiser (unit index carried in a column/element named u); units are single-line, name-matched. Bounded: exhaustive only at N<=3, sampled beyond."),
 }
 
 def main():
